@@ -98,7 +98,7 @@ WB = (" Events that call unexported functions or instantiate unexported types on
       "exported API, after a directed API-level campaign on the deviating parameters, or - beyond the reach of the API - when the same function conforms on "
       "all reachable white-box events (vlib.settle_whitebox); otherwise the leg is listed under skipped_legs.")
 EXTRA = {"C03": HIST + CONC, "C04": HIST + CONC + WB, "C05": HIST + CONC + WB, "C09": HIST + CONC, "C10": HIST, "C14": HIST, "C15": HIST + WB, "C19": HIST,
-         "C16": CONC + WB, "C11": CONC + WB, "C12": CONC + WB, "C17": CONC + WB, "C08": CONC + WB, "C06": CONC, "C18": CONC, "C01": CONC, "C20": WB}
+         "C16": HIST + CONC + WB, "C11": CONC + WB, "C12": CONC + WB, "C17": HIST + CONC + WB, "C08": HIST + CONC + WB, "C06": CONC, "C18": HIST + CONC, "C01": HIST + CONC, "C07": HIST, "C02": HIST, "C20": WB}
 
 
 def main():
